@@ -560,6 +560,24 @@ def check_guard(ctx, name):
         return False, "guard raised %r" % (e,)
 
 
+@guard("accept_loop_orders_diffs")
+def g_accept_loop(ctx):
+    """apply_rewrite slices old[cursor..diff.range.start] with cursor = end of the previously accepted diff: cursor <= start needs the
+    accept loop (process_diffs_interactive) to skip every diff that starts before the end of the last accepted one, and the list to be
+    sorted — the C18 R1 obligations on that loop"""
+    from . import c18
+    from ..core import Ctx
+    sub = ctx.prog.__dict__.get("_c18_sub")
+    if sub is None:
+        sub = Ctx("C18", ctx.tier, ctx.prog)
+        c18.run(sub)
+        ctx.prog.__dict__["_c18_sub"] = sub
+    rel = [o for o in sub.obligations if o["key"].split(":", 1)[1].startswith(("overlap test", "diffs stay ordered", "floor/range-overlap", "apply_rewrite/read cursor"))]
+    bad = [o["key"] for o in rel if not o["ok"]]
+    return len(rel) >= 3 and not bad, "%d obligations on the accept loop / the cursor hold" % len(rel) if not bad and len(rel) >= 3 else \
+        "the accept loop no longer guarantees that an accepted diff starts at or after the end of the previous one (%s): apply_rewrite slices old[start..range.start] with start > range.start and panics" % (bad or "obligations missing")
+
+
 @guard("substring_bounds")
 def g_substring_bounds(ctx):
     """`chars[start..end]` in Substring::compute: both `start <= end` and `end <= chars.len()` are established by comparisons whose
